@@ -90,6 +90,9 @@ pub fn uris() -> Vec<(String, &'static str, &'static str)> {
         ("127.0.0.1".into(), "ipv4"),
         ("[::1]".into(), "ipv6"),
         ("[2001:db8::1]".into(), "ipv6"),
+        ("[v1.fe80::a+en1]".into(), "bracketed-non-ip"),
+        ("[::1::1]".into(), "bracketed-non-ip"),
+        ("[::g]".into(), "bracketed-non-ip"),
         ("a..b".into(), "unusual-empty-label"),
         ("-".into(), "unusual-dash"),
         ("a!$&'()*+,;=b".into(), "unusual-sub-delims"),
@@ -132,7 +135,7 @@ pub fn gen_cases(thorough: bool) -> Vec<Case> {
                         for (pi, peer) in ["echo", "close", "never-accepts"].into_iter().enumerate() {
                             // full product for the echo peer; the other peers and TLS on a rotating subset
                             let k = i + mi + vi + pi + version as usize;
-                            let keep = thorough || (peer == "echo" && !tls && (uc != &"absolute" || k % 3 == 0)) || k % 17 == 0;
+                            let keep = thorough || (peer == "echo" && !tls && (uc != &"absolute" || k % 3 == 0)) || k % 17 == 0 || (*hc == "bracketed-non-ip" && peer == "echo" && k % 2 == 0);
                             if keep {
                                 v.push(Case { version, method, uri: uri.clone(), uri_class: uc, host_class: hc, path: via, tls, peer });
                             }
